@@ -3,10 +3,12 @@
 # Confirms in a scratch worktree (outside /repo and /verif) that a seeded change compiles, passes
 # the existing tests of its crate, and that its demonstration fails with the change and passes
 # without it.  Writes /verif/seeded/<id>/verify.log and a one-line verdict.
-export CARGO_NET_OFFLINE=true CARGO_TARGET_DIR=/tmp/vseed_target
+# VSEED_TAG=<suffix> gives the run its own worktree and target directory (several runs in parallel);
+# the tagged target directory is removed at the end.
+export CARGO_NET_OFFLINE=true CARGO_TARGET_DIR=/tmp/vseed_target${VSEED_TAG}
 BASE="${SEED_BASE:-d24f430}"
 for ID in "$@"; do
-  D=/verif/seeded/$ID; W=/tmp/vseed_wt; LOG=$D/verify.log
+  D=/verif/seeded/$ID; W=/tmp/vseed_wt${VSEED_TAG}; LOG=$D/verify.log
   git -C /repo worktree remove --force $W 2>/dev/null; rm -rf $W
   git -C /repo worktree add -q --detach $W $BASE || { echo "$ID worktree failed"; continue; }
   cd $W
@@ -37,3 +39,4 @@ for ID in "$@"; do
   echo "VERDICT $ID suite_exit=$SUITE demo_with_change_exit=$WITH demo_without_change_exit=$WITHOUT cmd=[$DEMO_CMD]" | tee -a $LOG
   cd /; git -C /repo worktree remove --force $W
 done
+[ -n "$VSEED_TAG" ] && rm -rf /tmp/vseed_target${VSEED_TAG}
